@@ -130,6 +130,7 @@ type Program struct {
 	Wrap     bool    `json:"wrap,omitempty"`    // argument expressions wrapped in rt.A
 	Generic  bool    `json:"generic,omitempty"` // directive inside a generic function
 	InMethod bool    `json:"in_method,omitempty"`
+	InVarLit bool    `json:"in_var_lit,omitempty"` // directive inside a function literal that initialises a package-level variable
 	// Shadow: user variables named like identifiers of the generated code hold
 	// the Params values (and other argument values) of the directive.
 	Shadow bool `json:"shadow,omitempty"`
